@@ -237,11 +237,10 @@ func NewFloatFromString(typ *types.FloatType, s string) (*Float, error) {
 			}
 		}
 	}
-	const base = 10
 	switch typ.Kind {
 	case types.FloatKindHalf:
 		const precision = 11
-		x, _, err := big.ParseFloat(s, base, precision, big.ToNearestEven)
+		x, err := parseDecimalFloat(s, precision)
 		if err != nil {
 			return nil, errors.WithStack(err)
 		}
@@ -263,7 +262,7 @@ func NewFloatFromString(typ *types.FloatType, s string) (*Float, error) {
 		return c, nil
 	case types.FloatKindFloat:
 		const precision = 24
-		x, _, err := big.ParseFloat(s, base, precision, big.ToNearestEven)
+		x, err := parseDecimalFloat(s, precision)
 		if err != nil {
 			return nil, errors.WithStack(err)
 		}
@@ -283,7 +282,7 @@ func NewFloatFromString(typ *types.FloatType, s string) (*Float, error) {
 		return c, nil
 	case types.FloatKindDouble:
 		const precision = 53
-		x, _, err := big.ParseFloat(s, base, precision, big.ToNearestEven)
+		x, err := parseDecimalFloat(s, precision)
 		if err != nil {
 			return nil, errors.WithStack(err)
 		}
@@ -302,6 +301,23 @@ func NewFloatFromString(typ *types.FloatType, s string) (*Float, error) {
 	default:
 		panic(fmt.Errorf("support for floating-point kind %v not yet implemented", typ.Kind))
 	}
+}
+
+// parseDecimalFloat parses the given decimal floating-point literal with the
+// given precision. A literal with an exponent beyond the exponent range of
+// big.Float denotes zero or infinity (as a literal below or above the range of
+// doubles does).
+func parseDecimalFloat(s string, precision uint) (*big.Float, error) {
+	x, _, err := big.ParseFloat(s, 10, precision, big.ToNearestEven)
+	if err != nil {
+		if f64, err64 := strconv.ParseFloat(s, 64); err64 == nil || f64 == 0 || math.IsInf(f64, 0) {
+			if numErr, ok := err64.(*strconv.NumError); err64 == nil || ok && numErr.Err == strconv.ErrRange {
+				return big.NewFloat(f64).SetPrec(precision), nil
+			}
+		}
+		return nil, err
+	}
+	return x, nil
 }
 
 // ppcFP128Prec is a precision which holds the sum of any two finite doubles
